@@ -318,15 +318,6 @@ func (e *Exec) do(op Op) Resp {
 		if err := restartChild(); err != nil {
 			return Resp{Msg: err.Error()}
 		}
-		if os.Getenv("C08_COLD_READS") == "" {
-			// One sequential request per version, leaves first, so that the new process has read a
-			// version's mapping log before the snapshot's multi-block reads start.  Without it the
-			// first mapped GET blocks after a restart races with the loading of the mapping
-			// (repo_patches/C08-10-fix); set C08_COLD_READS=1 to see that.
-			for v := len(e.uuids) - 1; v >= 0; v-- {
-				tr.Do("GET", s.url(e.uuids[v], "mapping"), []byte("[1]"))
-			}
-		}
 		return Resp{OK: true, Status: 200}
 	case "commit":
 		r := respOf(commitNode(uuid))
